@@ -142,6 +142,15 @@ def fixed_point_bounded_instance():
         for f in range(F):
             P = protos(rng, K, D, cplx)
             pert = 1e-2 * (rng.normal(size=(N, D)) + (1j * rng.normal(size=(N, D)) if cplx else 0)) / np.sqrt(D)
+            if model == 'gmm' and inp['seed'] % 2 == 0:
+                # perturbation of the same level but strongly elongated and tilted in some classes (scatter 1e-2 along one
+                # direction, 1e-5 along the others), round in the others
+                for k in range(K):
+                    if k % 2 == 0:
+                        Q = np.linalg.qr(rng.normal(size=(D, D)))[0]
+                        sv = np.full(D, 1e-3)
+                        sv[0] = 1.0
+                        pert[lab == k] = (pert[lab == k] * sv) @ Q.T
             y = P[lab] + pert
             if model not in ('gmm',):
                 gain = 10.0 ** rng.uniform(-8, 8, size=(N, 1)) * (np.exp(1j * rng.uniform(0, 2 * np.pi, size=(N, 1))) if cplx else 1.0)
